@@ -10,7 +10,7 @@ use binrw::BinRead;
 use binrw::BinReaderExt;
 use binrw::{BinWrite, BinWriterExt, binrw};
 
-use crate::common_file_operations::{read_bool_from, write_bool_as};
+use crate::common_file_operations::{read_bool_from, read_bytes_bounded, write_bool_as};
 use crate::model_vertex_declarations::{
     VERTEX_ELEMENT_SIZE, VertexDeclaration, VertexType, VertexUsage, vertex_element_parser,
     vertex_element_writer,
@@ -76,6 +76,17 @@ enum ModelFlags2 {
     Unknown3 = 0x01,
 }
 
+/// Reads `count` entries one by one, so that the buffer grows with the data actually present
+/// instead of being reserved from the file's 32-bit size field.
+#[binrw::parser(reader, endian)]
+fn submesh_bone_map_parser(count: u32) -> binrw::BinResult<Vec<u16>> {
+    let mut map = Vec::new();
+    for _ in 0..count {
+        map.push(u16::read_options(reader, endian, ())?);
+    }
+    Ok(map)
+}
+
 #[binrw]
 #[derive(Debug, Clone, PartialEq)]
 #[br(import { vertex_declaration_count: u16 })]
@@ -89,7 +100,7 @@ pub struct ModelHeader {
     string_count: u16,
     string_size: u32,
 
-    #[br(count = string_size)]
+    #[br(parse_with = read_bytes_bounded, args(string_size as u64))]
     strings: Vec<u8>,
 
     radius: f32,
@@ -346,7 +357,7 @@ pub struct ModelData {
     #[br(if(file_header.version >= 0x1000006))]
     submesh_bone_map_size_v2: u16,
 
-    #[br(count = if file_header.version >= 0x1000006 { (submesh_bone_map_size_v2 / 2) as u32 } else { submesh_bone_map_size / 2 } )]
+    #[br(parse_with = submesh_bone_map_parser, args(if file_header.version >= 0x1000006 { (submesh_bone_map_size_v2 / 2) as u32 } else { submesh_bone_map_size / 2 }))]
     submesh_bone_map: Vec<u16>,
 
     padding_amount: u8,
